@@ -307,3 +307,61 @@ Proof.
   apply N2Nat.inj. rewrite NoDup_nth in Hnd. apply (Hnd _ _); [| |exact E];
     rewrite firstn_length; lia.
 Qed.
+
+(* ---------- executable forms of the hypotheses, evaluated on every traced description ---------- *)
+
+Fixpoint shape_okb (l : list Synthetic.level) : bool :=
+  match l with
+  | [] => false
+  | [lv] => Nat.eqb (arity_of lv) O
+  | lv :: rest => negb (Nat.eqb (arity_of lv) O) && shape_okb rest
+  end.
+
+Lemma shape_okb_ok l : shape_okb l = true -> shape_ok l.
+Proof.
+  induction l as [|lv rest IH]; [discriminate|]. destruct rest as [|lv2 rest'].
+  - cbn. intros H. apply shape_leaf. now apply Nat.eqb_eq.
+  - intros H. change (negb (Nat.eqb (arity_of lv) O) && shape_okb (lv2 :: rest') = true) in H.
+    apply andb_true_iff in H as [H1 H2]. apply shape_inner; [|apply IH, H2].
+    apply negb_true_iff, Nat.eqb_neq in H1. exact H1.
+Qed.
+
+Fixpoint nodupb (l : list N) : bool :=
+  match l with [] => true | x :: t => negb (existsb (N.eqb x) t) && nodupb t end.
+Lemma nodupb_ok l : nodupb l = true -> NoDup l.
+Proof.
+  induction l as [|x t IH]; [constructor|]. cbn. intros H. apply andb_true_iff in H as [H1 H2].
+  constructor; [|apply IH, H2]. intros Hin. apply negb_true_iff in H1.
+  assert (existsb (N.eqb x) t = true) by (apply existsb_exists; exists x; split; [exact Hin|apply N.eqb_refl]). congruence.
+Qed.
+
+(* the PU level has no index list, or one without duplicates among its first [total] entries *)
+Definition indexes_okb (below : list Synthetic.level) (total : N) : bool :=
+  match Synthetic.lv_iarr (leaf_of below) with
+  | None => Synthetic.lv_type (leaf_of below) =? HWLOC_OBJ_PU
+  | Some a => nodupb (firstn (N.to_nat total) a) && Nat.leb (N.to_nat total) (List.length a)
+  end.
+
+Lemma indexes_okb_ok below total : indexes_okb below total = true -> inj_on below total.
+Proof.
+  unfold indexes_okb. destruct (Synthetic.lv_iarr (leaf_of below)) as [a|] eqn:E.
+  - intros H. apply andb_true_iff in H as [H1 H2]. eapply array_indexes_distinct; [exact E|apply nodupb_ok, H1|apply Nat.leb_le, H2].
+  - intros H. apply N.eqb_eq in H. apply default_indexes_distinct; assumption.
+Qed.
+
+(* number of PUs of a description: product of the arities *)
+Definition total_pus (below : list Synthetic.level) (a0 : nat) : N :=
+  fold_left (fun acc lv => match arity_of lv with O => acc | n => acc * N.of_nat n end) below (N.of_nat a0).
+
+(* the hypotheses of synthetic_requests_spec, as one executable test on a parsed description *)
+Definition synth_hypotheses_hold (sy : Synthetic.synth) : bool :=
+  match Synthetic.sy_levels sy with
+  | l0 :: below => shape_okb below && indexes_okb below (total_pus below (arity_of l0))
+  | [] => false
+  end.
+
+Definition synth_hyp_of_desc (desc : list N) : option bool :=
+  match Synthetic.parse Synthetic.Cur desc with
+  | Synthetic.Ret sy => Some (synth_hypotheses_hold sy)
+  | _ => None
+  end.
